@@ -21,7 +21,16 @@ type c23Scenario struct {
 	Alphabet  []uint64 `json:"alphabet"`
 	MaxLen    int      `json:"max_len"`
 	PostBlock int      `json:"post_cancel_blocks"` // blocks still offered after cancel()
+	// Closes: how many times the block source may close its channel (a dropped blocks
+	// subscription). A watcher that asks watchBlocksFn again gets a fresh channel on which
+	// the stream continues; one that keeps reading the closed channel spins, which ends
+	// the execution through the loop budget (liveness is not in the statement).
+	Closes int `json:"closes,omitempty"`
 }
+
+// c23LoopBudget bounds the iterations of the watcher's loop in a scenario with closes: a
+// healthy execution needs one per block handed over plus a few.
+const c23LoopBudget = 40
 
 type c23Call struct {
 	thread int // logical thread id of the callback goroutine = dispatch order
@@ -34,6 +43,8 @@ type c23Obs struct {
 	calls     []c23Call
 	cancelAt  int // number of blocks handed over when cancel() was called
 	returned  bool
+	closes    int // channels closed by the block source
+	subs      int // calls of watchBlocksFn
 }
 
 func c23Body(sc c23Scenario, obs *c23Obs) func() {
@@ -41,7 +52,19 @@ func c23Body(sc c23Scenario, obs *c23Obs) func() {
 		*obs = c23Obs{cancelAt: -1}
 		ctx, cancel := vctx.WithCancel(context.Background())
 		blocks := make(chan uint64)
-		watchBlocksFn := func(context.Context) <-chan uint64 { return blocks }
+		first := true
+		watchBlocksFn := func(context.Context) <-chan uint64 {
+			obs.subs++
+			if !first {
+				blocks = make(chan uint64)
+			}
+			first = false
+			return blocks
+		}
+		vsched.ResetLoops(0)
+		if sc.Closes > 0 {
+			vsched.ResetLoops(c23LoopBudget)
+		}
 		onWindowFn := func(w *coordinationWindow) {
 			obs.calls = append(obs.calls, c23Call{vsched.ThreadID(), w.coordinationBlock})
 		}
@@ -52,9 +75,23 @@ func c23Body(sc c23Scenario, obs *c23Obs) func() {
 		n := len(sc.Alphabet)
 		// the block source: any finite stream over the alphabet, then cancellation
 		for i := 0; i < sc.MaxLen; i++ {
-			k := vsched.Choose(n+1, "block")
+			menu := n + 1
+			if obs.closes < sc.Closes {
+				menu++
+			}
+			k := vsched.Choose(menu, "block")
 			if k == n {
 				break
+			}
+			if k == n+1 {
+				// the subscription is dropped (there must be one first): the stream
+				// continues once the watcher has subscribed again (never, if it does not)
+				vsched.Block("watcher subscribes", func() bool { return obs.subs >= 1 })
+				vsched.Close(blocks)
+				obs.closes++
+				want := obs.subs + 1
+				vsched.Block("watcher subscribes again", func() bool { return obs.subs >= want })
+				continue
 			}
 			vsched.Send(blocks, sc.Alphabet[k])
 			obs.handed = append(obs.handed, sc.Alphabet[k])
@@ -93,9 +130,16 @@ func TestVerifC23(t *testing.T) {
 			r.ViolationMin(kind, len(obs.handed)*100+len(s.Choices()), fmt.Sprintf("%s stream=%v cancel-after=%d", kind, obs.handed, obs.cancelAt),
 				fmt.Sprintf("block stream %v (cancel() after %d blocks): %s [schedule %s]", obs.handed, obs.cancelAt, what, s.Trace()), rp)
 		}
+		spinning := false
 		if p, stack := s.Failed(); p != nil {
-			fail("panic", fmt.Sprintf("panic: %v\n%s", p, stack))
-			return
+			if _, spin := p.(vsched.LoopBudgetExceeded); spin && obs.closes > 0 {
+				// the watcher keeps reading a closed channel; what it started so far is
+				// still judged below
+				spinning = true
+			} else {
+				fail("panic", fmt.Sprintf("panic: %v\n%s", p, stack))
+				return
+			}
 		}
 		if s.StepCapHit {
 			r.Cap("step-cap")
@@ -174,7 +218,13 @@ func TestVerifC23(t *testing.T) {
 		if obs.postTaken > 0 {
 			cls += " block-taken-after-cancel"
 		}
-		if !obs.returned {
+		if obs.closes > 0 {
+			cls += fmt.Sprintf(" closes=%d resubscribed=%d", obs.closes, obs.subs-1)
+		}
+		if spinning {
+			cls += " watcher-spins-on-closed-channel"
+			r.Add("watcher_spins_on_closed_channel", 1)
+		} else if !obs.returned {
 			cls += " watcher-not-returned"
 			r.Add("watcher_not_returned_after_cancel", 1)
 		}
@@ -196,16 +246,19 @@ func TestVerifC23(t *testing.T) {
 	small := []uint64{900, 899, 1800, 2700, 0, 1799}
 	tiny := []uint64{900, 1800, 899, 0}
 	runs := []run{
-		{c23Scenario{small, 4, 1}, 0},
-		{c23Scenario{small, 3, 1}, 1},
-		{c23Scenario{tiny, 3, 1}, 2},
+		{c23Scenario{small, 4, 1, 0}, 0},
+		{c23Scenario{small, 3, 1, 0}, 1},
+		{c23Scenario{tiny, 3, 1, 0}, 2},
+		{c23Scenario{tiny, 4, 0, 1}, 1},
 	}
 	if r.Thorough() {
 		runs = []run{
-			{c23Scenario{full, 5, 1}, 0},
-			{c23Scenario{full, 4, 1}, 1},
-			{c23Scenario{small, 3, 2}, 2},
-			{c23Scenario{tiny, 3, 1}, 3},
+			{c23Scenario{full, 5, 1, 0}, 0},
+			{c23Scenario{full, 4, 1, 0}, 1},
+			{c23Scenario{small, 3, 2, 0}, 2},
+			{c23Scenario{tiny, 3, 1, 0}, 3},
+			{c23Scenario{small, 5, 1, 2}, 1},
+			{c23Scenario{tiny, 4, 1, 1}, 2},
 		}
 	}
 	shard, shards := r.Shard()
@@ -234,7 +287,7 @@ func TestVerifC23(t *testing.T) {
 			}
 			st := vsched.Explore(vsched.Options{Bound: bound, Shard: shard, Shards: shards, Stop: r.Expired},
 				c23Body(sc, &obs), func(s *vsched.Sched) { evaluate(sc, bound, s) })
-			r.Set(fmt.Sprintf("a%d.len%d.post%d.bound%d_execs", len(sc.Alphabet), sc.MaxLen, sc.PostBlock, bound), st.Execs)
+			r.Set(fmt.Sprintf("a%d.len%d.post%d.closes%d.bound%d_execs", len(sc.Alphabet), sc.MaxLen, sc.PostBlock, sc.Closes, bound), st.Execs)
 			if st.Stopped {
 				r.Cap(fmt.Sprintf("alphabet %d len %d bound %d not completed", len(sc.Alphabet), sc.MaxLen, bound))
 			}
